@@ -179,11 +179,42 @@ func (e *ErrSpec) Build() error {
 		case 'n':
 			err = psqlerr.WithConstraintName(err, w.S)
 		case 'w':
-			err = fmt.Errorf("%s: %w", w.S, err)
+			// ordinary wrapping comes in the shapes programs use: fmt.Errorf, a struct wrapper handed on by
+			// value (with a slice among its fields, as a step with its arguments has), a pointer wrapper.
+			// The text is the same in all three
+			sum := 0
+			for i := 0; i < len(w.S); i++ {
+				sum += int(w.S[i])
+			}
+			switch sum % 3 {
+			case 0:
+				err = fmt.Errorf("%s: %w", w.S, err)
+			case 1:
+				err = stepErr{Step: w.S, Args: []any{sum, w.S}, Err: err}
+			default:
+				err = &opErr{Op: w.S, Err: err}
+			}
 		}
 	}
 	return err
 }
+
+type stepErr struct {
+	Step string
+	Args []any
+	Err  error
+}
+
+func (e stepErr) Error() string { return e.Step + ": " + e.Err.Error() }
+func (e stepErr) Unwrap() error { return e.Err }
+
+type opErr struct {
+	Op  string
+	Err error
+}
+
+func (e *opErr) Error() string { return e.Op + ": " + e.Err.Error() }
+func (e *opErr) Unwrap() error { return e.Err }
 
 // Expect computes the fields the property demands for this error (outermost
 // value of each decoration, defaults, message = error text).
@@ -286,6 +317,9 @@ type Stmt struct {
 	Define      wire.Columns // not declared with the statement: the handler announces them itself through DataWriter.Define
 	Params      []oid.Oid
 	ParseParams bool // use wire.ParseParameters(query) for the declared parameters
+	// Normalize: the handler counts the parameters of what it makes of the text (comments removed, say), not
+	// of the raw text: wire.ParseParameters(Normalize(query)) is what it declares
+	Normalize func(string) string
 	EchoQuery   bool // the statement fails with an error that quotes its query text - the string the parser was handed, kept without copying
 	Ops         []Op
 }
@@ -407,7 +441,9 @@ func Parse(ctx context.Context, query string) (wire.PreparedStatements, error) {
 		} else if st.Define != nil && !HasDefine {
 			opts = append(opts, wire.WithColumns(st.Define)) // this tree's writer has no Define: declare them
 		}
-		if st.ParseParams {
+		if st.ParseParams && st.Normalize != nil {
+			opts = append(opts, wire.WithParameters(wire.ParseParameters(st.Normalize(query))))
+		} else if st.ParseParams {
 			opts = append(opts, wire.WithParameters(wire.ParseParameters(query)))
 		} else if st.Params != nil {
 			opts = append(opts, wire.WithParameters(append([]oid.Oid{}, st.Params...))) // the script keeps its own list: what the library does to the one it was given is the library's business
